@@ -14,6 +14,8 @@ import Vegeta.Model.Plot
   result given explicitly (a custom `Labeler`)
 * `c17.plotcmd <threshold> <k> (<n> (…)×n)×k` → the `plot` command on `k` result files (round-robin
   decoding, Add each, data): `ok …` as for `c17.plot` | `err` | `panic`
+* `c17.plotcli <flag given 0|1> <threshold> <k> (<n> (…)×n)×k` → the command line `vegeta plot [-threshold N] files…`
+  (`plotCmdLine`: default threshold when the flag is absent)
 * `c17.adds <n> (…)×n` → `ok` | `err add <i>` | `panic add <i>`   (only the Adds, no data)
 -/
 namespace Vegeta.Driver.C17
@@ -106,6 +108,14 @@ def handle (op : String) (args : List String) : Option String :=
     let ((th, files), _) ← (do let th ← int; let fs ← listOf (listOf result); pure (th, fs)).run args
     let total := files.foldl (fun n f => n + f.length) 0
     match plotCommand id th (total + 1) (Vegeta.Model.RoundRobin.ofInputs files) with
+    | .ok (rows, labels) =>
+      pure ("ok " ++ showBytesList labels ++ " " ++ showRows (canonTies rows []) labels.length)
+    | .error _ => pure "err"
+    | .panic => pure "panic"
+  | "c17.plotcli" => do
+    let ((has, th, files), _) ← (do let h ← bool; let th ← int; let fs ← listOf (listOf result); pure (h, th, fs)).run args
+    let total := files.foldl (fun n f => n + f.length) 0
+    match plotCmdLine id (if has then some th else none) (total + 1) (Vegeta.Model.RoundRobin.ofInputs files) with
     | .ok (rows, labels) =>
       pure ("ok " ++ showBytesList labels ++ " " ++ showRows (canonTies rows []) labels.length)
     | .error _ => pure "err"
